@@ -31,78 +31,68 @@ func (l *Lexer) NewTokenAt(tokenType token.Type, literal string, startLine, star
 	}
 }
 
+// newTwoCharToken consumes the second character of a two-character operator and returns a token
+// that starts at the first character and ends at the second one.
+func (l *Lexer) newTwoCharToken(tokenType token.Type) token.Token {
+	startLine, startColumn := l.Line, l.Column
+	ch := l.CurrentChar
+	l.ReadChar()
+	return l.NewTokenAt(tokenType, string(ch)+string(l.CurrentChar), startLine, startColumn)
+}
+
 func baseNextToken(l *Lexer) token.Token {
 	var tok token.Token
 
 	switch l.CurrentChar {
 	case '=':
 		if l.PeekChar() == '=' {
-			l.ReadChar()
-			tok = l.NewToken(token.EQ, "==")
+			tok = l.newTwoCharToken(token.EQ)
 		} else {
 			tok = l.NewToken(token.ASSIGN, string(l.CurrentChar))
 		}
 	case '!':
 		if l.PeekChar() == '=' {
-			ch := l.CurrentChar
-			l.ReadChar()
-			tok = l.NewToken(token.NOT_EQ, string(ch)+string(l.CurrentChar))
+			tok = l.newTwoCharToken(token.NOT_EQ)
 		} else {
 			tok = l.NewToken(token.NOT, string(l.CurrentChar))
 		}
 	case '<':
 		if l.PeekChar() == '=' {
-			ch := l.CurrentChar
-			l.ReadChar()
-			tok = l.NewToken(token.LTE, string(ch)+string(l.CurrentChar))
+			tok = l.newTwoCharToken(token.LTE)
 		} else {
 			tok = l.NewToken(token.LT, string(l.CurrentChar))
 		}
 	case '>':
 		if l.PeekChar() == '=' {
-			ch := l.CurrentChar
-			l.ReadChar()
-			tok = l.NewToken(token.GTE, string(ch)+string(l.CurrentChar))
+			tok = l.newTwoCharToken(token.GTE)
 		} else {
 			tok = l.NewToken(token.GT, string(l.CurrentChar))
 		}
 	case '&':
 		if l.PeekChar() == '&' {
-			ch := l.CurrentChar
-			l.ReadChar()
-			tok = l.NewToken(token.AND, string(ch)+string(l.CurrentChar))
+			tok = l.newTwoCharToken(token.AND)
 		} else {
 			tok = l.NewToken(token.ILLEGAL, string(l.CurrentChar))
 		}
 	case '|':
 		if l.PeekChar() == '|' {
-			ch := l.CurrentChar
-			l.ReadChar()
-			tok = l.NewToken(token.OR, string(ch)+string(l.CurrentChar))
+			tok = l.newTwoCharToken(token.OR)
 		} else {
 			tok = l.NewToken(token.ILLEGAL, string(l.CurrentChar))
 		}
 	case '+':
 		if l.PeekChar() == '+' {
-			ch := l.CurrentChar
-			l.ReadChar()
-			tok = l.NewToken(token.INCREMENT, string(ch)+string(l.CurrentChar))
+			tok = l.newTwoCharToken(token.INCREMENT)
 		} else if l.PeekChar() == '=' {
-			ch := l.CurrentChar
-			l.ReadChar()
-			tok = l.NewToken(token.PLUS_ASSIGN, string(ch)+string(l.CurrentChar))
+			tok = l.newTwoCharToken(token.PLUS_ASSIGN)
 		} else {
 			tok = l.NewToken(token.PLUS, string(l.CurrentChar))
 		}
 	case '-':
 		if l.PeekChar() == '-' {
-			ch := l.CurrentChar
-			l.ReadChar()
-			tok = l.NewToken(token.DECREMENT, string(ch)+string(l.CurrentChar))
+			tok = l.newTwoCharToken(token.DECREMENT)
 		} else if l.PeekChar() == '=' {
-			ch := l.CurrentChar
-			l.ReadChar()
-			tok = l.NewToken(token.MINUS_ASSIGN, string(ch)+string(l.CurrentChar))
+			tok = l.newTwoCharToken(token.MINUS_ASSIGN)
 		} else {
 			tok = l.NewToken(token.MINUS, string(l.CurrentChar))
 		}
